@@ -164,23 +164,22 @@ theorem specLoop_done (env : Env) (n : Nat) (st : SpecSt) (rest : Toks)
     · simp [h1, h2, hs]
 
 theorem specLoop_specifiers (env : Env) (rest : Toks) : ∀ (xs : List Str) (st : SpecSt) (n : Nat),
-    (∀ v ∈ xs, classify v = .TYPE_SPECIFIER) →
+    (∀ v ∈ xs, classify v = .TYPE_SPECIFIER) → st.typemap = none →
     specLoop env (n + xs.length) st (xs.map nameTok ++ rest)
-      = specLoop env n { st with specifier := st.specifier ++ xs } rest := by
+      = specLoop env n { st with specifier := st.specifier ++ xs, found := st.found || !xs.isEmpty } rest := by
   intro xs
   induction xs with
-  | nil => intro st n _; simp
+  | nil => intro st n _ _; simp
   | cons v xs ih =>
-    intro st n h
+    intro st n h htm
     have hv : classify v = .TYPE_SPECIFIER := h v (by simp)
     have e : n + (v :: xs).length = (n + xs.length) + 1 := by simp; omega
     rw [e]
     simp only [List.map_cons, List.cons_append]
     rw [specLoop]
-    simp only [nameTok, hv]
-    have := ih { st with specifier := st.specifier ++ [v] } n (fun w hw => h w (by simp [hw]))
-    simp [nameTok] at this
-    simp [this]
+    have := ih { st with specifier := st.specifier ++ [v], found := true } n (fun w hw => h w (by simp [hw])) htm
+    simp [nameTok, hv, htm]
+    simpa [nameTok, htm] using this
 
 theorem specLoop_storage (env : Env) (rest : Toks) : ∀ (xs : List Str) (st : SpecSt) (n : Nat),
     (∀ v ∈ xs, classify v = .STORAGE_CLASS) →
@@ -291,11 +290,14 @@ theorem declSpec_print (env : Env) (s : Spec) (rest : Toks) (n : Nat)
   rw [e2, specLoop_storage env _ sto _ _ hsto]
   rcases hsp with ⟨_, hall, hcan⟩ | ⟨name, hname, hc, hu⟩
   · have e3 : k + sp.length + 1 + a + b = (k + 1 + a + b) + sp.length := by omega
-    rw [e3, specLoop_specifiers env _ sp _ _ hall]
+    rw [e3, specLoop_specifiers env _ sp _ _ hall rfl]
     have e4 : k + 1 + a + b = (k + a + b) + 1 := by omega
     rw [e4, specLoop_done env _ _ rest (by cases sp <;> simp_all) hstop]
-    simp at hcan ⊢
-    simp [hcan]
+    have hcan' : ∀ (b : Bool), canonical env ({ specifier := sp, storage := sto, const := c, volatile := v, found := b } : SpecSt)
+        = .ok (.mk sp sto c v [] tm) := by
+      intro b; simpa [canonical] using hcan
+    simp
+    simp [hcan']
   · subst hname
     have e3 : k + [name].length + 1 + a + b = (k + a + b) + 2 := by simp; omega
     simp only [List.map_cons, List.map_nil, List.cons_append, List.nil_append]
@@ -616,7 +618,7 @@ theorem declaration_step (env : Env) (s : Spec) (dr : Option Declarator) (params
     (hrest : DeclFollow rest)
     (hm : m ≥ (Decl.mk s dr params fc arr attrs none).toks.length + 8)
     (HP : ∀ ps, params = some ps → ∃ ps', (if isVoidOnly ps' then [] else ps') = ps ∧
-            ∀ X, paramList env m (paramsInner ps ++ tk .RPAREN ")" :: X) = .ok (ps', X)) :
+            ∀ X, paramList env m [] (paramsInner ps ++ tk .RPAREN ")" :: X) = .ok (ps', X)) :
     declaration env (m + 1) ((Decl.mk s dr params fc arr attrs none).toks ++ rest)
       = .ok (.mk s dr params fc arr attrs none, rest) := by
   rw [Decl.toks_eq] at hm ⊢
@@ -701,6 +703,14 @@ theorem declaration_step (env : Env) (s : Spec) (dr : Option Declarator) (params
         simp only [NotKind] at k4
         simp only [k4, if_false, Res.bind_ok, h4, h5, h6]
 
+/-- parameter names (as `get_name(use_attr=False)` sees them) are pairwise different and not in `names` -/
+def DistinctFrom : List Str → List Decl → Prop
+  | _, [] => True
+  | names, p :: ps =>
+    match p.shallowName with
+    | some nm => names.contains nm = false ∧ DistinctFrom (nm :: names) ps
+    | none => DistinctFrom names ps
+
 mutual
 /-- well-formed declaration (the domain of the round-trip theorem): no default value,
     simple array dimensions, rendered attributes, a named declarator when there are
@@ -711,7 +721,7 @@ def WF (env : Env) : Decl → Prop
     (∀ a ∈ attrs, WFAttr a) ∧ AttrsOrdered attrs ∧ init = none ∧ WFo env dr fc params
 def WFo (env : Env) (dr : Option Declarator) (fc : Bool) : Option (List Decl) → Prop
   | none => fc = false
-  | some ps => (∃ d, dr = some d ∧ d.named = true) ∧ isVoidOnly ps = false ∧ WFs env ps
+  | some ps => (∃ d, dr = some d ∧ d.named = true) ∧ isVoidOnly ps = false ∧ WFs env ps ∧ DistinctFrom [] ps
 def WFs (env : Env) : List Decl → Prop
   | [] => True
   | p :: ps => WF env p ∧ WFs env ps
@@ -775,13 +785,14 @@ def RT (env : Env) (d : Decl) : Prop :=
   ∀ (rest : Toks) (m : Nat), DeclFollow rest → m ≥ d.toks.length + 8 →
     declaration env (m + 1) (d.toks ++ rest) = .ok (d, rest)
 
-theorem paramList_print (env : Env) : ∀ (ps : List Decl) (p : Decl) (m : Nat) (X : Toks),
-    (∀ q ∈ p :: ps, WF env q ∧ RT env q) → m ≥ (p.toks ++ paramsTailToks ps).length + 10 →
-    paramList env m (p.toks ++ paramsTailToks ps ++ tk .RPAREN ")" :: X) = .ok (p :: ps, X) := by
+theorem paramList_print (env : Env) : ∀ (ps : List Decl) (p : Decl) (m : Nat) (X : Toks) (names : List Str),
+    (∀ q ∈ p :: ps, WF env q ∧ RT env q) → DistinctFrom names (p :: ps) →
+    m ≥ (p.toks ++ paramsTailToks ps).length + 10 →
+    paramList env m names (p.toks ++ paramsTailToks ps ++ tk .RPAREN ")" :: X) = .ok (p :: ps, X) := by
   intro ps
   induction ps with
   | nil =>
-    intro p m X h hm
+    intro p m X names h hdist hm
     obtain ⟨hwf, hrt⟩ := h p (by simp)
     obtain ⟨t, ts, e, h1, _⟩ := declToks_head env p hwf
     simp only [paramsTailToks, List.append_nil, List.length_append] at hm ⊢
@@ -793,9 +804,16 @@ theorem paramList_print (env : Env) : ∀ (ps : List Decl) (p : Decl) (m : Nat) 
     split
     · rename_i hh; simp at hh; exact absurd hh h1
     · simp [tk] at hd
-      simp [hd, have?, mustbe, tk]
+      simp only [DistinctFrom] at hdist
+      cases hsn : p.shallowName with
+      | none => simp [hd, hsn, have?, mustbe, tk]
+      | some nm =>
+        rw [hsn] at hdist
+        simp only [] at hdist
+        have hnot : nm ∉ names := by simpa using hdist.1
+        simp [hd, hsn, hnot, have?, mustbe, tk]
   | cons q qs ih =>
-    intro p m X h hm
+    intro p m X names h hdist hm
     obtain ⟨hwf, hrt⟩ := h p (by simp)
     obtain ⟨hwfq, _⟩ := h q (by simp)
     obtain ⟨t, ts, e, h1, _⟩ := declToks_head env p hwf
@@ -805,9 +823,10 @@ theorem paramList_print (env : Env) : ∀ (ps : List Decl) (p : Decl) (m : Nat) 
     obtain ⟨m', rfl⟩ : ∃ m', m = m' + 2 := ⟨m - 2, by omega⟩
     have hd := hrt (tk .COMMA "," :: (q.toks ++ (paramsTailToks qs ++ tk .RPAREN ")" :: X))) m'
       (by simp [DeclFollow, tk]) (by omega)
-    have hi := ih q (m' + 1) X (fun x hx => h x (by simp at hx ⊢; exact Or.inr hx))
+    have hi := fun names' hdq => ih q (m' + 1) X names' (fun x hx => h x (by simp at hx ⊢; exact Or.inr hx)) hdq
       (by simp only [List.length_append]; omega)
     simp only [List.append_assoc] at hi
+    rw [DistinctFrom] at hdist
     rw [paramList]
     rw [e] at hd ⊢
     simp only [List.cons_append, peekTyp]
@@ -815,10 +834,24 @@ theorem paramList_print (env : Env) : ∀ (ps : List Decl) (p : Decl) (m : Nat) 
     · rename_i hh; simp at hh; exact absurd hh h1
     · rw [e2] at hd hi ⊢
       simp [tk] at hd hi
-      simp [hd, have?, tk, h2, peekTyp]
-      split
-      · rename_i hh; exact absurd (by simpa using hh) h2r
-      · simp [hi]
+      cases hsn : p.shallowName with
+      | none =>
+        rw [hsn] at hdist
+        simp only [] at hdist
+        have hi' := hi names hdist
+        simp [hd, hsn, have?, tk, h2, peekTyp]
+        split
+        · rename_i hh; exact absurd (by simpa using hh) h2r
+        · simp [hi']
+      | some nm =>
+        rw [hsn] at hdist
+        simp only [] at hdist
+        have hnot : nm ∉ names := by simpa using hdist.1
+        have hi' := hi (nm :: names) hdist.2
+        simp [hd, hsn, hnot, have?, tk, h2, peekTyp]
+        split
+        · rename_i hh; exact absurd (by simpa using hh) h2r
+        · simp [hi']
 
 theorem roundtrip_all (env : Env) (hv : EnvVoid env) : ∀ d, WF env d → RT env d := by
   intro d
@@ -835,7 +868,7 @@ theorem roundtrip_all (env : Env) (hv : EnvVoid env) : ∀ d, WF env d → RT en
     · intro ps hps
       subst hps
       simp only [WFo] at hpar
-      obtain ⟨_, hvo, hwfs⟩ := hpar
+      obtain ⟨_, hvo, hwfs, hdist⟩ := hpar
       cases ps with
       | nil =>
         obtain ⟨tm, htm⟩ := hv
@@ -865,14 +898,15 @@ theorem roundtrip_all (env : Env) (hv : EnvVoid env) : ∀ d, WF env d → RT en
         rw [htoks] at hstep
         simp [tk] at hstep
         rw [paramList]
-        simp [paramsInner, peekTyp, tk, hstep, have?, mustbe]
+        simp [paramsInner, peekTyp, tk, hstep, have?, mustbe, Decl.shallowName]
       | cons p ps' =>
         refine ⟨p :: ps', by simp [hvo], ?_⟩
         intro X
         simp only [paramsInner]
-        apply paramList_print env ps' p m X
+        apply paramList_print env ps' p m X []
         · intro q hq
           exact ⟨WFs_mem hwfs q hq, ih (p :: ps') rfl q hq (WFs_mem hwfs q hq)⟩
+        · exact hdist
         · rw [Decl.toks_eq] at hm
           simp only [List.length_append, List.length_cons, paramsInner] at hm ⊢
           omega
